@@ -20,7 +20,12 @@ from statham.schema.validation import (
 )
 
 
-RESERVED_PROPERTIES = dir(object) + list(keyword.kwlist) + ["_dict"]
+RESERVED_PROPERTIES = (
+    dir(object)
+    + ["__dict__", "__weakref__"]
+    + list(keyword.kwlist)
+    + ["_dict"]
+)
 
 
 def _docstring_body(text: str) -> str:
